@@ -44,12 +44,15 @@ def run(ctx):
             raise common.Infra('vacuity: SendPath without %s does not violate any invariant' % lock)
         ctx.notes.append('weakened model (%s = FALSE): TLC reports a violated invariant, as it must' % lock)
     rows = []
-    stores = ['memory'] if quick else ['memory', 'file', 'sqlite']
+    stores = ['memory', 'file'] if quick else ['memory', 'file', 'sqlite']
     for st in stores:
         tp = os.path.join(ctx.scratch, 'send_%s.ndjson' % st)
         args = ['send', '-out', tp, '-store', st, '-repo', common.REPO]
-        args += ['-gated', '2', '-runs', '4', '-senders', '4', '-per', '150', '-rounds', '8'] if quick else \
-                ['-gated', '4', '-runs', '12', '-senders', '8', '-per', '200' if st == 'memory' else '60', '-rounds', '12']
+        if quick:
+            # quick tier: stress runs on the memory store; the forced schedules also on the file store
+            args += ['-gated', '2', '-runs', '4' if st == 'memory' else '0', '-senders', '4', '-per', '150', '-rounds', '8']
+        else:
+            args += ['-gated', '4', '-runs', '12', '-senders', '8', '-per', '200' if st == 'memory' else '60', '-rounds', '12']
         p = ctx.run_vh(args, timeout=3000)
         if p.returncode != 0:
             if 'engine stuck' in p.stderr:
